@@ -63,6 +63,7 @@ def install():
                 payload = bytes(packet)
                 sim.pkts[label].append(('S', pkttype, pktid, payload, ''))
                 sim.log('S', label, pkttype, digest_len(pkttype, payload))
+                sim.count_sent_packet(label)
 
                 if sim.on_packet is not None:
                     sim.on_packet(label, conn, 'S', pkttype, pktid, payload)
